@@ -64,7 +64,6 @@ def lexLt : List Nat → List Nat → Bool
   | _ :: _, [] => false
   | a :: as, b :: bs => if a < b then true else if b < a then false else lexLt as bs
 
-def isPerm (a b : List Nat) : Bool := a.length == b.length && a.all (fun x => a.count x == b.count x)
 
 /-- one operation: (result token, returned value, comparator calls if modelled, new state) -/
 def setStep (s : SSt) (toks : List String) : String × String × Option Nat × SSt :=
@@ -134,7 +133,8 @@ def setStep (s : SSt) (toks : List String) : String × String × Option Nat × S
       | "cmp", [d] =>
           let o := s.get (nat d)
           let oes := s.elemsOf o
-          let eq := if !x.isSmall && !o.isSmall then es == oes else isPerm es oes
+          -- `operator==` compares, like std::set, the two sequences each in the order of its own comparator object
+          let eq := insertAll lt [] es == insertAll (s.ltOf (nat d)) [] oes
           let l := lexLt (insertAll lt [] es) (insertAll (s.ltOf (nat d)) [] oes)
           ("ok", s!"{if eq then 1 else 0}{if l then 1 else 0}", none, s)
       | "iter", [] => ("ok", s!"{sz}={sz}", some 0, s)
